@@ -74,6 +74,7 @@ type Run struct {
 	t0       time.Time
 	mu       sync.Mutex
 
+	nTraceFiles         int
 	States, Transitions int64
 	Traces              int64 // executions of the real code judged against the specification
 	Evaluations         int64
